@@ -8,7 +8,6 @@ import (
 	"fmt"
 	"io"
 	"net/http"
-	"os"
 	"runtime/pprof"
 	"strings"
 	"sync"
@@ -37,6 +36,8 @@ type callHandler struct {
 
 type callScenario struct {
 	Tid   int         `json:"tid"`
+	Kind  string      `json:"kind"` // bidi (default) | server | client
+	HTTP  int         `json:"http"` // 2 (default) | 1
 	Proto string      `json:"proto"`
 	H     callHandler `json:"h"`
 	Prog  []callOp    `json:"prog"`
@@ -110,8 +111,14 @@ func (c *countingRT) RoundTrip(r *http.Request) (*http.Response, error) {
 }
 
 var (
-	callOnce   sync.Once
-	callServer *loopback
+	callOnce    sync.Once
+	callServer  *loopback // TLS HTTP/2
+	callServer1 *loopback // HTTP/1.1
+)
+
+const (
+	procServer = "/verif.v1.Svc/ServerStream"
+	procClient = "/verif.v1.Svc/ClientStream"
 )
 
 const handlerErrCode = connect.CodeFailedPrecondition
@@ -161,9 +168,115 @@ func callSetup() {
 		}
 		return nil
 	})
+	finish := func(ctx context.Context, st *callState, p callHandler) error {
+		if p.Hret == "stall" {
+			<-ctx.Done()
+			st.ctxErr = true
+			return ctx.Err()
+		}
+		st.ctxErr = ctx.Err() != nil
+		if p.Hret == "err" {
+			return connect.NewError(handlerErrCode, errors.New("handler-err"))
+		}
+		return nil
+	}
+	// server streaming: the library has read the one request message; the program sends hsend messages
+	hs := connect.NewServerStreamHandler(procServer, func(ctx context.Context, r *connect.Request[BV], ss *connect.ServerStream[BV]) error {
+		v, ok := callStates.Load(r.Header().Get("X-Verif-Sid"))
+		if !ok {
+			return errors.New("verif: unknown scenario")
+		}
+		st := v.(*callState)
+		st.entered.Store(true)
+		defer close(st.exited)
+		for i := 0; i < st.sc.H.Hsend; i++ {
+			if err := ss.Send(&BV{Value: []byte{byte(i + 1)}}); err != nil {
+				st.ctxErr = ctx.Err() != nil
+				return err
+			}
+		}
+		return finish(ctx, st, st.sc.H)
+	})
+	// client streaming: receive hrecv messages (or to the end when draining), answer with one message
+	hc := connect.NewClientStreamHandler(procClient, func(ctx context.Context, cs *connect.ClientStream[BV]) (*connect.Response[BV], error) {
+		v, ok := callStates.Load(cs.RequestHeader().Get("X-Verif-Sid"))
+		if !ok {
+			return nil, errors.New("verif: unknown scenario")
+		}
+		st := v.(*callState)
+		st.entered.Store(true)
+		defer close(st.exited)
+		got := 0
+		for (got < st.sc.H.Hrecv || st.sc.H.Hdrain) && cs.Receive() {
+			got++
+		}
+		if got < st.sc.H.Hrecv || st.sc.H.Hdrain {
+			st.sawEOF = cs.Err() == nil
+		}
+		if err := finish(ctx, st, st.sc.H); err != nil {
+			return nil, err
+		}
+		return connect.NewResponse(&BV{Value: []byte{1}}), nil
+	})
 	mux := http.NewServeMux()
 	mux.Handle(e2eProc, h)
+	mux.Handle(procServer, hs)
+	mux.Handle(procClient, hc)
 	callServer = newLoopback(mux, true)
+	callServer1 = newLoopback(mux, false)
+}
+
+// connLogger records every connection-level operation of a streaming call (the vocabulary of Call.tla),
+// whoever issues it: the application (bidi) or the library's own wrappers (CallServerStream, CloseAndReceive).
+type connLogger struct{ rec *Rec }
+
+type loggedConn struct {
+	connect.StreamingClientConn
+	rec *Rec
+}
+
+func (c *loggedConn) Send(m any) error {
+	c.rec.Add(E("call", "op", "send"))
+	err := c.StreamingClientConn.Send(m)
+	r, code := classifySend(err)
+	c.rec.Add(E("ret", "op", "send", "res", r, "code", code))
+	return err
+}
+func (c *loggedConn) CloseRequest() error {
+	c.rec.Add(E("call", "op", "closereq"))
+	err := c.StreamingClientConn.CloseRequest()
+	r := "ok"
+	if err != nil {
+		r = "err"
+	}
+	c.rec.Add(E("ret", "op", "closereq", "res", r, "code", codeOf(err)))
+	return err
+}
+func (c *loggedConn) Receive(m any) error {
+	c.rec.Add(E("call", "op", "recv"))
+	err := c.StreamingClientConn.Receive(m)
+	r, code := classifyRecv(err)
+	c.rec.Add(E("ret", "op", "recv", "res", r, "code", code))
+	return err
+}
+func (c *loggedConn) CloseResponse() error {
+	c.rec.Add(E("call", "op", "closeresp"))
+	err := c.StreamingClientConn.CloseResponse()
+	r := "ok"
+	if err != nil {
+		r = "err"
+	}
+	c.rec.Add(E("ret", "op", "closeresp", "res", r, "code", codeOf(err)))
+	return err
+}
+func (l connLogger) WrapUnary(next connect.UnaryFunc) connect.UnaryFunc { return next }
+func (l connLogger) WrapStreamingHandler(next connect.StreamingHandlerFunc) connect.StreamingHandlerFunc {
+	return next
+}
+func (l connLogger) WrapStreamingClient(next connect.StreamingClientFunc) connect.StreamingClientFunc {
+	return func(ctx context.Context, spec connect.Spec) connect.StreamingClientConn {
+		return &loggedConn{StreamingClientConn: next(ctx, spec), rec: l.rec}
+	}
 }
 
 func classifySend(err error) (string, int) {
@@ -225,13 +338,29 @@ func runCall(raw json.RawMessage, seed int64, rec *Rec) {
 	st := &callState{sc: &s, exited: make(chan struct{})}
 	callStates.Store(sid, st)
 	defer callStates.Delete(sid)
+	hsend := s.H.Hsend
+	if s.Kind == "client" && s.H.Hret != "ok" {
+		hsend = 0 // a client-streaming handler's single response exists only if it returns successfully
+	}
 	rec.Add(E("reset", "tid", s.Tid, "sc", map[string]any{"msend": s.Msend, "mrecv": s.Mrecv, "hrecv": s.H.Hrecv,
-		"hsend": s.H.Hsend, "hdrain": s.H.Hdrain, "hret": s.H.Hret, "watch": true},
-		"scn", map[string]any{"proto": s.Proto, "prog": s.Prog, "h": s.H}))
+		"hsend": hsend, "hdrain": s.H.Hdrain, "hret": s.H.Hret, "watch": true},
+		"scn", map[string]any{"proto": s.Proto, "prog": s.Prog, "h": s.H, "kind": s.Kind, "http": s.HTTP}))
 
 	var closed atomic.Int64
-	httpClient := &http.Client{Transport: &countingRT{rt: callServer.client.Transport, closed: &closed}}
-	client := connect.NewClient[BV, BV](httpClient, callServer.srv.URL+e2eProc, clientProtoOpts(s.Proto)...)
+	srv := callServer
+	if s.HTTP == 1 {
+		srv = callServer1
+	}
+	proc := e2eProc
+	switch s.Kind {
+	case "server":
+		proc = procServer
+	case "client":
+		proc = procClient
+	}
+	httpClient := &http.Client{Transport: &countingRT{rt: srv.client.Transport, closed: &closed}}
+	copts := append(clientProtoOpts(s.Proto), connect.WithInterceptors(connLogger{rec: rec}))
+	client := connect.NewClient[BV, BV](httpClient, srv.srv.URL+proc, copts...)
 	hasDeadline := false
 	for _, o := range s.Prog {
 		if o.Op == "cancel" && o.How == "expired" {
@@ -245,31 +374,51 @@ func runCall(raw json.RawMessage, seed int64, rec *Rec) {
 	pprof.Do(mctx, labels, func(ctx context.Context) {
 		// pprof.Do derives a context: keep the manual one's semantics
 		lctx := &labelCtx{Context: ctx, m: mctx}
-		stream := client.CallBidiStream(lctx)
-		stream.RequestHeader().Set("X-Verif-Sid", sid)
+		var bidi *connect.BidiStreamForClient[BV, BV]
+		var sstream *connect.ServerStreamForClient[BV]
+		var cstream *connect.ClientStreamForClient[BV, BV]
+		switch s.Kind {
+		case "server":
+		case "client":
+			cstream = client.CallClientStream(lctx)
+			cstream.RequestHeader().Set("X-Verif-Sid", sid)
+		default:
+			bidi = client.CallBidiStream(lctx)
+			bidi.RequestHeader().Set("X-Verif-Sid", sid)
+		}
 		nsent := 0
-		run := func(op string) (string, int) {
+		// API-level operations; the connection-level events come from the connLogger interceptor
+		run := func(op string) {
 			switch op {
 			case "send":
 				nsent++
-				return classifySend(stream.Send(&BV{Value: []byte{byte(nsent)}}))
+				if cstream != nil {
+					_ = cstream.Send(&BV{Value: []byte{byte(nsent)}})
+				} else {
+					_ = bidi.Send(&BV{Value: []byte{byte(nsent)}})
+				}
 			case "closereq":
-				if err := stream.CloseRequest(); err != nil {
-					return "err", codeOf(err)
-				}
-				return "ok", 0
+				_ = bidi.CloseRequest()
 			case "recv":
-				_, err := stream.Receive()
-				if err != nil && os.Getenv("VERIF_DEBUG") != "" {
-					fmt.Fprintf(os.Stderr, "recv error: %v\n", err)
+				if sstream != nil {
+					sstream.Receive()
+				} else if bidi != nil {
+					_, _ = bidi.Receive()
 				}
-				return classifyRecv(err)
-			default:
+			case "closeresp":
 				didCloseResp = true
-				if err := stream.CloseResponse(); err != nil {
-					return "err", codeOf(err)
+				if sstream != nil {
+					_ = sstream.Close()
+				} else if bidi != nil {
+					_ = bidi.CloseResponse()
 				}
-				return "ok", 0
+			case "css": // CallServerStream: Send + CloseRequest inside the library
+				req := connect.NewRequest(&BV{Value: []byte{1}})
+				req.Header().Set("X-Verif-Sid", sid)
+				sstream, _ = client.CallServerStream(lctx, req)
+			case "car": // CloseAndReceive: CloseRequest + Receive (+ Receive) + CloseResponse inside the library
+				didCloseResp = true
+				_, _ = cstream.CloseAndReceive()
 			}
 		}
 		pendingCancel := ""
@@ -284,22 +433,18 @@ func runCall(raw json.RawMessage, seed int64, rec *Rec) {
 				mctx.end(o.How)
 				continue
 			}
-			type res struct {
-				r string
-				c int
+			if (o.Op == "recv" || o.Op == "closeresp") && s.Kind == "server" && sstream == nil {
+				continue // CallServerStream failed: there is no stream to use
 			}
-			done := make(chan res, 1)
-			rec.Add(E("call", "op", o.Op))
+			done := make(chan struct{})
 			go pprof.Do(lctx, labels, func(context.Context) {
-				r, c := run(o.Op)
-				done <- res{r, c}
+				defer close(done)
+				run(o.Op)
 			})
-			var out res
 			if pendingCancel != "" {
 				select {
-				case out = <-done:
+				case <-done:
 					// the operation finished before the cancellation instant: the cancel falls between operations
-					rec.Add(E("ret", "op", o.Op, "res", out.r, "code", out.c))
 					rec.Add(E("cancel", "how", pendingCancel))
 					mctx.end(pendingCancel)
 					pendingCancel = ""
@@ -311,8 +456,7 @@ func runCall(raw json.RawMessage, seed int64, rec *Rec) {
 				}
 			}
 			select {
-			case out = <-done:
-				rec.Add(E("ret", "op", o.Op, "res", out.r, "code", out.c))
+			case <-done:
 			case <-time.After(15 * time.Second):
 				rec.Add(E("stuck", "op", o.Op, "stacks", allStacks()))
 				stuck = true
